@@ -190,8 +190,31 @@ func decEvent(k string, b []byte) M {
 	if res == "" {
 		ev["val"] = payloadToVal(k, p)
 	}
+	// the same bytes into ONE long-lived payload value per command (a receive loop that keeps its command structs): what it
+	// held before - the previous input, or random bytes of the right length - must not show
+	sp, ok := streamPayloads[k]
+	if !ok {
+		observeFast(func() error {
+			var err error
+			sp, _, err = lorawan.GetMACPayloadAndSize(dir == "up", lorawan.CID(cid))
+			return err
+		})
+		streamPayloads[k] = sp
+	}
+	if sp != nil && !reflect.ValueOf(sp).IsNil() {
+		if curCtx != nil && curCtx.rnd.Intn(2) == 0 {
+			observeFast(func() error { return sp.UnmarshalBinary(curCtx.bytesN(cmdTab[k].size)) })
+		}
+		sres, _ := observeFast(func() error { return sp.UnmarshalBinary(append([]byte{}, b...)) })
+		ev["serr"] = sres
+		if sres == "" {
+			ev["sval"] = payloadToVal(k, sp)
+		}
+	}
 	return ev
 }
+
+var streamPayloads = map[string]lorawan.MACCommandPayload{}
 
 // streamEvent puts cmds into FOpts (where="fopts") or a port-0 FRMPayload (where="frm") of a data
 // frame, serialises the frame, deserialises it and decodes the commands again.
@@ -206,6 +229,25 @@ func streamEvent(dir, where string, items []M) M {
 		mt = lorawan.UnconfirmedDataUp
 	}
 	mp := &lorawan.MACPayload{FHDR: lorawan.FHDR{DevAddr: lorawan.DevAddr{1, 2, 3, 4}, FCnt: 7}}
+	phy := lorawan.PHYPayload{MHDR: lorawan.MHDR{MType: mt, Major: lorawan.LoRaWANR1}, MACPayload: mp}
+	if curCtx != nil && curCtx.rnd.Intn(4) == 0 {
+		// the frame value is not fresh: it was RECEIVED (with other FOpts and another payload) and is now re-used for the
+		// command sequence of this case, through its exported members only
+		prev := lorawan.PHYPayload{MHDR: phy.MHDR, MACPayload: &lorawan.MACPayload{FHDR: lorawan.FHDR{DevAddr: lorawan.DevAddr{1, 2, 3, 4}, FCnt: 6,
+			FOpts: []lorawan.Payload{&lorawan.DataPayload{Bytes: curCtx.bytesN(1 + curCtx.rnd.Intn(15))}}}}}
+		if curCtx.rnd.Intn(2) == 0 {
+			pp := uint8(1 + curCtx.rnd.Intn(200))
+			pm := prev.MACPayload.(*lorawan.MACPayload)
+			pm.FPort, pm.FRMPayload = &pp, []lorawan.Payload{&lorawan.DataPayload{Bytes: curCtx.bytesN(curCtx.rnd.Intn(12))}}
+		}
+		if pb, err := prev.MarshalBinary(); err == nil && phy.UnmarshalBinary(pb) == nil {
+			if rmp, ok := phy.MACPayload.(*lorawan.MACPayload); ok {
+				mp = rmp
+				mp.FHDR.FCnt = 7
+				mp.FHDR.FOpts, mp.FPort, mp.FRMPayload = nil, nil, nil
+			}
+		}
+	}
 	if where == "fopts" {
 		mp.FHDR.FOpts = pls
 	} else {
@@ -213,7 +255,6 @@ func streamEvent(dir, where string, items []M) M {
 		mp.FPort = &p0
 		mp.FRMPayload = pls
 	}
-	phy := lorawan.PHYPayload{MHDR: lorawan.MHDR{MType: mt, Major: lorawan.LoRaWANR1}, MACPayload: mp}
 	var b []byte
 	res, _ := observeFast(func() error {
 		var err error
@@ -349,6 +390,21 @@ func drvMacCmd(c *ctx) error {
 	switch c.mode {
 	case "values": // C07 (i) + C06: values over the full Go field domains
 		cmdTypeEvents(c)
+		// every boundary value of every frequency member, deterministically (the other members in range)
+		freqEdges := []uint32{0, 100, 99, 200, 868100000, 1677721500, 1677721600, 1677721700, 1199999900, 1200000000, 1200000100, 2399999900, 2400000000, 2400000100,
+			2400000200, 2400000400, 3355443000, 3355442800, 3355443200, 3355443400, 4294967200, math.MaxUint32}
+		for _, k := range cmdKeys {
+			for _, f := range cmdTab[k].fields {
+				if f.kind != "freq" {
+					continue
+				}
+				for _, fv := range freqEdges {
+					v := c.genCmdVal(k, true)
+					v[f.name] = freqVal(fv)
+					c.emit(encEvent(k, v))
+				}
+			}
+		}
 		for i := 0; i < c.n; i++ {
 			k := cmdKeys[i%len(cmdKeys)]
 			if i%8 == 0 { // failing calls in between: a too short payload, a garbage stream
